@@ -13,9 +13,106 @@
 
 using namespace xs;
 
+#ifndef XSIM_FLAVOUR_tsan
 extern "C" const char *__asan_default_options() { return "exitcode=77:detect_leaks=0:detect_stack_use_after_return=1:abort_on_error=0:allocator_may_return_null=1"; }
 extern "C" const char *__ubsan_default_options() { return "print_stacktrace=1:halt_on_error=1:exitcode=77"; }
-extern "C" const char *__tsan_default_options() { return "exitcode=0:halt_on_error=0:report_signal_unsafe=0:second_deadlock_stack=1"; }
+#endif
+static char g_tsan_logbase[600];
+static char g_tsan_opts[900];
+// called while the detector initialises itself (before its interceptors work): raw system call and hand-written loops only
+static const char *tsan_logbase() {
+    if (!g_tsan_logbase[0]) {
+        long n = 0;
+#ifdef __x86_64__
+        const char *lnk = "/proc/self/exe";
+        __asm__ volatile("syscall" : "=a"(n) : "0"(89L), "D"(lnk), "S"(g_tsan_logbase), "d"(500L) : "rcx", "r11", "memory");
+#endif
+        if (n <= 0) { const char *d = "./xsim"; for (n = 0; d[n]; n++) g_tsan_logbase[n] = d[n]; }
+        g_tsan_logbase[n] = 0;
+        long sl = -1;
+        for (long i = 0; i < n; i++) if (g_tsan_logbase[i] == '/') sl = i;
+        const char *tail = "/tsanlog";
+        long o = sl >= 0 ? sl : n;
+        for (long i = 0; tail[i]; i++) g_tsan_logbase[o++] = tail[i];
+        g_tsan_logbase[o] = 0;
+    }
+    return g_tsan_logbase;
+}
+extern "C" const char *__tsan_default_options() {
+    const char *pre = "exitcode=0:halt_on_error=0:report_signal_unsafe=0:second_deadlock_stack=1:history_size=4:color=never:log_path=";
+    long o = 0;
+    for (long i = 0; pre[i]; i++) g_tsan_opts[o++] = pre[i];
+    const char *lb = tsan_logbase();
+    for (long i = 0; lb[i]; i++) g_tsan_opts[o++] = lb[i];
+    g_tsan_opts[o] = 0;
+    return g_tsan_opts;
+}
+
+// ThreadSanitizer flavour: reports go to a per-process log; after every run the new ones are read and kept only if *both*
+// accesses are made by XCM code (innermost frame with a source location lies under /repo/). Everything else is the harness's
+// own memory, handed between tasks under the scheduler's baton, which the detector cannot see by design.
+#ifdef XSIM_FLAVOUR_tsan
+#include <fstream>
+static size_t g_tsan_off = 0;
+static void collect_tsan(Result &r) {
+    std::string path = strf("%s.%d", tsan_logbase(), (int)getpid());
+    static bool reg = false;
+    if (!reg) { reg = true; atexit([] { unlink(strf("%s.%d", tsan_logbase(), (int)getpid()).c_str()); }); }
+    std::ifstream in(path);
+    if (!in) return;
+    in.seekg((std::streamoff)g_tsan_off);
+    std::string all((std::istreambuf_iterator<char>(in)), std::istreambuf_iterator<char>());
+    g_tsan_off += all.size();
+    size_t pos = 0;
+    int kept = 0, dropped = 0;
+    while ((pos = all.find("WARNING: ThreadSanitizer: data race", pos)) != std::string::npos) {
+        size_t end = all.find("SUMMARY: ThreadSanitizer", pos);
+        if (end == std::string::npos) end = all.size();
+        std::string rep = all.substr(pos, end - pos);
+        pos = end;
+        // split into access blocks
+        std::vector<std::string> sites;
+        size_t p = 0;
+        int blocks = 0, xcm_blocks = 0;
+        while (p < rep.size()) {
+            size_t nl = rep.find('\n', p);
+            if (nl == std::string::npos) nl = rep.size();
+            std::string line = rep.substr(p, nl - p);
+            p = nl + 1;
+            bool hdr = (line.find(" of size ") != std::string::npos && line.find(" by ") != std::string::npos && line.compare(0, 2, "  ") == 0 && line.find("#") == std::string::npos);
+            if (!hdr) continue;
+            if (line.find("Location") != std::string::npos) continue;
+            blocks++;
+            // innermost frame that has a source location
+            size_t q = p;
+            while (q < rep.size()) {
+                size_t e2 = rep.find('\n', q);
+                if (e2 == std::string::npos) e2 = rep.size();
+                std::string fl = rep.substr(q, e2 - q);
+                q = e2 + 1;
+                if (fl.find("    #") != 0) break;
+                size_t sl = fl.find(" /");
+                if (sl == std::string::npos) continue;   // interceptor or library frame without source
+                if (fl.compare(sl + 1, 6, "/repo/") == 0) {
+                    xcm_blocks++;
+                    size_t fs = fl.find(' ', 6);
+                    sites.push_back(fl.substr(fs == std::string::npos ? 0 : fs + 1, 120));
+                }
+                break;
+            }
+        }
+        if (blocks >= 2 && xcm_blocks >= 2) {
+            kept++;
+            if (r.violations.size() < 16) r.violations.push_back(Violation{"C15.data_race", strf("ThreadSanitizer: data race between %s and %s", sites[0].c_str(), sites[1].c_str())});
+            r.verdict = "violation";
+        } else dropped++;
+    }
+    r.stat["probe.tsan_reports_in_xcm"] = kept;
+    r.stat["probe.tsan_reports_harness_only"] = dropped;
+}
+#else
+static void collect_tsan(Result &) {}
+#endif
 
 // real wall clock (time() is redirected to the simulated clock in this executable)
 static long long real_now_s() { return (long long)std::chrono::duration_cast<std::chrono::seconds>(std::chrono::system_clock::now().time_since_epoch()).count(); }
@@ -91,6 +188,18 @@ int main(int argc, char **argv) {
         printf("%s\n", p.to_json().dump().c_str());
         return 0;
     }
+    if (mode == "replay" || mode == "run") {
+        // see threads_warmup_plan()
+        bool th = family == "threads";
+        if (mode == "replay" && !th) { std::string t0; Json j0; Plan q; if (read_file(file, t0) && Json::parse(t0, j0) && Plan::from_json(j0, q)) th = q.family == "threads"; }
+        if (th) {
+            // a crash inside the warm-up is attributed to the first plan of the range (its replay repeats the warm-up)
+            if (mode == "run") { printf("START %llu\n", (unsigned long long)base); fflush(stdout); }
+            Result w = run_plan(threads_warmup_plan(), false);
+            collect_tsan(w);
+            if (mode == "run") { printf("WARMED\n"); fflush(stdout); }
+        }
+    }
     if (mode == "replay") {
         std::string text;
         Json j;
@@ -100,6 +209,7 @@ int main(int argc, char **argv) {
         g_cur_plan = p;
         printf("START %llu\n", (unsigned long long)p.seed);
         Result r = run_plan(p, verbose);
+        collect_tsan(r);
         printf("END %llu %s\n", (unsigned long long)p.seed, r.to_json().dump().c_str());
         fflush(stdout);
         if (r.stat.count("must_exit")) _exit(r.verdict == "ok" ? 0 : 1);
@@ -127,6 +237,7 @@ int main(int argc, char **argv) {
             if (!resume) printf("START %llu\n", (unsigned long long)s);
             auto t0 = std::chrono::steady_clock::now();
             Result r = run_plan(p, verbose);
+            collect_tsan(r);
             Json j = r.to_json();
             j.set("wall_ms", (int64_t)std::chrono::duration_cast<std::chrono::milliseconds>(std::chrono::steady_clock::now() - t0).count());
             if (r.verdict != "ok") {
